@@ -33,6 +33,8 @@ type Ctx struct {
 	knownSeen   map[string]int
 	known       []knownFinding
 	deadline    time.Time
+	wallOps     map[int64]wallOp
+	wallSeq     int64
 	capped      []string
 	nViol       int64
 
@@ -353,4 +355,50 @@ func replayFile(path string) int {
 	}
 	fmt.Printf("replay %s: no longer reproduces\n", path)
 	return 0
+}
+
+// WatchWall arms a wall-clock backstop around an operation that runs code under check WITHOUT the
+// deterministic access-count watchdog (the real memory types passed to the CPU unwrapped, so that
+// type-dependent fast paths are reached). The limit is two minutes for operations that take
+// nanoseconds; if it is exceeded the operation is reported as not returning and the check ends.
+func (c *Ctx) WatchWall(desc func() string) (done func()) {
+	c.mu.Lock()
+	c.wallSeq++
+	id := c.wallSeq
+	if c.wallOps == nil {
+		c.wallOps = map[int64]wallOp{}
+		go c.wallMonitor()
+	}
+	c.wallOps[id] = wallOp{desc: desc, start: time.Now()}
+	c.mu.Unlock()
+	return func() {
+		c.mu.Lock()
+		delete(c.wallOps, id)
+		c.mu.Unlock()
+	}
+}
+
+type wallOp struct {
+	desc  func() string
+	start time.Time
+}
+
+func (c *Ctx) wallMonitor() {
+	for {
+		time.Sleep(2 * time.Second)
+		c.mu.Lock()
+		var stuck *wallOp
+		for _, op := range c.wallOps {
+			if time.Since(op.start) > 2*time.Minute {
+				o := op
+				stuck = &o
+			}
+		}
+		c.mu.Unlock()
+		if stuck != nil {
+			what := stuck.desc()
+			c.Report("no-return", 0, "", map[string]string{"operation": what}, []string{"did not return within two minutes (takes nanoseconds on the unchanged tree): " + what})
+			os.Exit(c.finish())
+		}
+	}
 }
